@@ -547,12 +547,15 @@ class CurvatureCorrection(darsia.BaseCorrection):
             np.ndarray: curvature corrected image.
 
         """
+        # Read cache from file, if available and not read yet.
+        if self.use_cache and self.cache_path.exists() and "grid" not in self.cache:
+            self.cache = np.load(self.cache_path, allow_pickle=True).item()
+
         # Precompute transformed coordinates based on self.config, if required.
-        # NOTE: The transformed coordinates depend on the shape of the input array; an
-        # in-memory cache computed for another shape is therefore not reused.
-        if not (self.use_cache and self.cache_path.exists()) and (
-            "grid" not in self.cache
-            or self.cache.get("input_shape") != tuple(img.shape[:2])
+        # NOTE: The transformed coordinates depend on the shape of the input array; a
+        # cache (in memory or read from file) computed for another shape is not reused.
+        if "grid" not in self.cache or self.cache.get("input_shape") != tuple(
+            img.shape[:2]
         ):
             self._precompute_transformed_coordinates(img)
             self.cache["input_shape"] = tuple(img.shape[:2])
@@ -560,10 +563,6 @@ class CurvatureCorrection(darsia.BaseCorrection):
             # Store in cache
             if self.use_cache:
                 np.save(self.cache_path, self.cache)
-
-        elif self.use_cache and self.cache_path.exists():
-            # Reache cache from file
-            self.cache = np.load(self.cache_path, allow_pickle=True).item()
 
         # Fetch precomputed transformed coordinates and the shape of the transformed image.
         grid = self.cache["grid"]
